@@ -565,17 +565,10 @@ static int __config_read(config_t *config, FILE *stream, const char *filename,
   /* Forget the outcome of any previous call. */
   __config_set_error(config, CONFIG_ERR_NONE, NULL);
 
-  config_clear(config);
-
-  libconfig_parsectx_init(&parse_ctx);
-  parse_ctx.config = config;
-  parse_ctx.parent = config->root;
-  parse_ctx.setting = config->root;
-
-  saved_locale = __config_locale_override();
-
+  /* Copy the file name and the text before releasing the previous contents:
+   * either may be a string owned by them (config_error_file(), a setting's
+   * source file or string value). */
   libconfig_scanctx_init(&scan_ctx, filename);
-  config->root->file = libconfig_scanctx_current_filename(&scan_ctx);
   scan_ctx.config = config;
   libconfig_yylex_init_extra(&scan_ctx, &scanner);
 
@@ -583,6 +576,16 @@ static int __config_read(config_t *config, FILE *stream, const char *filename,
     libconfig_yyrestart(stream, scanner);
   else /* read from string */
     (void)libconfig_yy_scan_string(str, scanner);
+
+  config_clear(config);
+
+  libconfig_parsectx_init(&parse_ctx);
+  parse_ctx.config = config;
+  parse_ctx.parent = config->root;
+  parse_ctx.setting = config->root;
+  config->root->file = libconfig_scanctx_current_filename(&scan_ctx);
+
+  saved_locale = __config_locale_override();
 
   libconfig_yyset_lineno(1, scanner);
   r = libconfig_yyparse(scanner, &parse_ctx, &scan_ctx);
